@@ -441,6 +441,10 @@ func runC18(rc *RunCtx) {
 		c18Race(rc, H, nTx)
 		return
 	}
+	// (0) on a third of the shards, before anything else ran in the process: every rejection branch, three times over
+	if rc.Shard%3 == 1 {
+		c18RepeatBranches(rc)
+	}
 	// (a) first thing in a fresh process
 	hid := rc.Shard % H
 	d, v, inc := runTranscript(rc.Seed, hid, nTx, nil)
@@ -459,10 +463,6 @@ func runC18(rc *RunCtx) {
 	}
 	// (b+) the same transactions packed 2, 7 and all-in-one to a block
 	c18BlockPartition(rc, rc.Seed, (hid+1)%H, nTx, []int{2, 7, 1 << 30, 1})
-	// (b+++) every rejection branch twice in one process
-	if rc.Shard%3 == 1 {
-		c18RepeatBranches(rc)
-	}
 	// (b++) query answers are independent of concurrent instances and of requests served earlier in the process
 	if rc.Shard%3 == 0 {
 		c18QueryIndependence(rc)
